@@ -97,6 +97,20 @@ theorem gen_readFirstLine (line : Bytes) :
          | some v => simp only [Option.elim_some, Sum.elim_inr]; cases minorVersion v <;> rfl
        · simp only [hg, Bool.false_eq_true, if_false, Option.elim_some, Sum.elim_inr]
          cases minorVersion p0 <;> rfl)
+  | (-- another arrangement of the same tests (conditional expressions, a computed index): case analysis on the three optional values
+     unfold Gen.readFirstLine readFirstLine
+     simp only []
+     generalize splitWs 2 line = parts
+     cases h0 : parts[0]? with
+     | none => simp [h0]
+     | some p0 =>
+       have eG : ("GET".toList) = ['G', 'E', 'T'] := rfl
+       have eH : ("HEAD".toList) = ['H', 'E', 'A', 'D'] := rfl
+       by_cases hp : p0 = ['G', 'E', 'T'] ∨ p0 = ['H', 'E', 'A', 'D']
+       · cases h2 : parts[2]? with
+         | none => simp [h0, h2, hp, eG, eH]
+         | some v => cases hm : minorVersion v <;> simp [h0, h2, hp, hm, eG, eH]
+       · cases hm : minorVersion p0 <;> simp [h0, hp, hm, eG, eH])
 
 def readOutOpt : ReadOut → Option (Dir × Nat × List Hdr)
   | .ok r m hs => some (if r then Dir.req else Dir.resp, m, hs)
